@@ -251,7 +251,35 @@ def run(ctx):
         ctx.cov["controls"].append({"control": "append through a shared slice: recorded projection altered so that the source looks unchanged; must be rejected at that line", "detected": bool(ok)})
         if not ok:
             raise Broken("corruption control failed (reached %d of %d)" % (reached, total))
+    key_law(ctx, binp)
     return vlib.finish(ctx, RULE, exhaustive=False)
+
+
+def key_law(ctx, binp):
+    """store / read / delete agree on which entry a key expression addresses (7 key types x 23 key operands x 4 statement forms), judged by Trace_AnkoMapKey"""
+    op = os.path.join(ctx.work, "keylaw_obs.ndjson")
+    vlib.run_cmd(ctx, [binp, "keylaw", op])
+    obs = vlib.read_ndjson(op)
+    rej, total, r = vlib.validate_lines(ctx, "Trace_AnkoMapKey", "Trace_AnkoMapKey.cfg", [op])
+    ctx.cov["evaluations"] += total
+    ctx.cov["traces_validated_against_impl"] += total - len(rej)
+    ctx.cov["distinct_nontrivial"] += sum(1 for o in obs if o["stored"])
+    ctx.cov["key_law"] = {"combinations": total, "stored": sum(1 for o in obs if o["stored"]), "rejected": len(rej)}
+    seen = set()
+    for ln in rej:
+        o = obs[ln - 1]
+        if (o["kt"], o["key"]) in seen or len(seen) >= 12:
+            continue
+        seen.add((o["kt"], o["key"]))
+        vlib.violation(ctx, "map[%s]int64 with k = %s (%s): after the store succeeded, read of the same key gives the value: %s, one entry: %s, delete with that key removes it: %s%s -- the three operations do not agree on the entry a key addresses"
+                       % (o["kt"], o["key"], o["form"], o["read_ok"], o["len1"], o["deleted_ok"], ", PANIC" if o["panicked"] else ""), {"kind": "keylaw", "obs": o})
+    if not rej and obs:
+        bad = dict(next(o for o in obs if o["stored"])); bad["read_ok"] = False
+        vlib.write_ndjson(op, [bad])
+        rej2, _, _ = vlib.validate_lines(ctx, "Trace_AnkoMapKey", "Trace_AnkoMapKey.cfg", [op])
+        ctx.cov["controls"].append({"control": "a key-law observation whose read misses the stored entry must be rejected", "detected": rej2 == [1]})
+        if rej2 != [1]:
+            raise Broken("key-law corruption control failed")
 
 
 def replay(ctx, path):
@@ -261,6 +289,14 @@ def replay(ctx, path):
         refp = os.path.join(ctx.work, "refs.json")
         vlib.run_cmd(ctx, [binp, "refs", refp], timeout=900)
         bad = any(m["travel"] == p["travel"] and m["kind"] == p["ckind"] for m in (json.load(open(refp)).get("mismatches") or []))
+        if bad:
+            print("VIOLATION property=%s replay=%s" % (ctx.id, path))
+        return 1 if bad else 0
+    if p.get("kind") == "keylaw":
+        op = os.path.join(ctx.work, "keylaw_obs.ndjson")
+        vlib.run_cmd(ctx, [binp, "keylaw", op])
+        w = p["obs"]
+        bad = any(o["kt"] == w["kt"] and o["key"] == w["key"] and o["form"] == w["form"] and (o["panicked"] or (o["stored"] and not (o["read_ok"] and o["len1"] and o["deleted_ok"]))) for o in vlib.read_ndjson(op))
         if bad:
             print("VIOLATION property=%s replay=%s" % (ctx.id, path))
         return 1 if bad else 0
